@@ -23,7 +23,7 @@ RULE = ("Hypothesis-generated suite trees (depth 0..4, fan-out 0..4) mixing plai
         "(NFC and NFD twins, T1 / t1 / t1+nbsp) and the root is a suite in 6 of 7 draws; id subsets are drawn from the tree's own ids in 2 of 3 cases; "
         "the suite kind with a filter_by_ids hook keeps its tests outside _tests (reachable through iter() and the hook only); one leaf object at several "
         "places of a tree; after sorted_tests the inside of every element kept whole is compared (a suite with sort_tests has sorted itself, any other "
-        "custom suite is untouched); a plain suite handed to filter_by_ids holds the kept tests afterwards; a filtered tree is filtered again; "
+        "custom suite is untouched); a filtered tree is filtered again; "
         "unpack_outer by keyword; --list --load-list also through runner classes without list() / whose list() takes no loader, and its exit status; "
         "two exhaustive grids: every ordered pair of 13 such ids in six shapes (+ triples around a custom suite, shared objects) through the utilities, "
         "and every ordered pair through --list / --load-list. "
@@ -34,13 +34,22 @@ ASSUMPTIONS = [
     "custom filter_by_ids implementations are correct and may return a new suite (as the docstring allows)",
     "where an empty custom suite lands in sorted_tests' result is not asserted (it has no first test)",
     "grouping after filter_by_ids is compared modulo empty suites (removed tests are replaced by empty suites)",
-    "a TestSuite (sub)class without a filter_by_ids hook is filtered in place: the object handed in is returned (custom kinds) and holds "
-    "the kept tests (plain root) - this rests on the docstring (':return: suite_or_case', 'mutate in place') and on 'leaves' in the statement",
+    "a custom TestSuite subclass without a filter_by_ids hook (decided by hasattr on the live object, not by class name) is filtered in "
+    "place: the object handed in is returned and stays in the filtered tree - this rests on the docstring (':return: suite_or_case', "
+    "'mutate in place rather than guessing how to reconstruct') and on 'grouping' in the statement; an exact unittest.TestSuite may be "
+    "mutated or rebuilt, what the object handed in holds afterwards is not asserted (the property is observed on the returned suite)",
     "whether sorted_tests keeps a custom suite WITHOUT tests is not asserted either (present or dropped); the result is some unittest.TestSuite "
     "(sub)class instance, not necessarily exactly TestSuite",
-    "an all-passing --load-list run exits 0 / False; when nothing was selected, 5 (unittest's 'no tests ran' since 3.12) is accepted too",
+    "an all-passing --load-list run exits 0 / False or returns without SystemExit; when nothing was selected, 5 (unittest's 'no tests "
+    "ran' since 3.12) is accepted too",
     "'placed by its first test' is read as the first test at the time sorted_tests is called (before the suite's own sort_tests hook ran), "
-    "at the top level and inside suites that sort themselves with sorted_tests(self, True)",
+    "at the top level and inside suites that sort themselves with sorted_tests(self, True); the other reading (first test after the hook "
+    "ran = the suite's smallest id) is reported as a violation - it is stored seeded change C19-r7-2",
+    "one test object at several places of a tree counts as one leaf per place for iterate_tests / filter_by_ids / --list / --load-list "
+    "(unittest runs it once per place); for sorted_tests' ValueError it may count once or once per place: a duplicate id carried by a "
+    "single object is accepted with and without ValueError",
+    "the inside of a FixtureSuite after sorted_tests is accepted as sorted_tests(self, True) would leave it or as a local sort of its "
+    "direct children by their first test (children with a sort_tests hook sorted themselves, the others as they were)",
     "inside a custom suite WITHOUT sort_tests, whether sort_tests hooks of suites nested in it are reached is not asserted (only that no test is lost)",
     "ids have no ASCII white space at an edge (--load-list strips it, DESIGN 11.2); every suite kind without its own filter_by_ids hook iterates "
     "its _tests list in storage order (the in-place fallback cannot serve anything else); list(test) fallbacks of TestProgram are driven with --list only",
@@ -193,6 +202,12 @@ def leaves(node):
     return [i for c in node["c"] for i in leaves(c)]
 
 
+def leaf_nodes(node):
+    if node["k"] == "leaf":
+        return [node]
+    return [n for c in node["c"] for n in leaf_nodes(c)]
+
+
 def canon(node, keep=None):
     """Nested-list shape with empty suites pruned; leaves filtered by ``keep``."""
     if node["k"] == "leaf":
@@ -256,6 +271,33 @@ def inner_ids(node):
     return [i for _, n in keyed for i in inner_ids(n)]
 
 
+def _first_key(n):
+    ls = leaves(n)
+    return (not ls, ls[0] if ls else "")
+
+
+def inner_ok(node, seq):
+    """Is ``seq`` an admissible inside of ``node`` after sorted_tests?  ``inner_ids(node)`` is; for testtools' own FixtureSuite
+    (whose sort_tests the statement leaves to the suite) a local sort is too: its direct children ordered by their first test,
+    children with a sort_tests hook having sorted themselves, the others as they were."""
+    seq = list(seq)
+    if node["k"] == "leaf" or node["k"] not in HOOKED:
+        return seq == leaves(node)
+
+    def chunks_ok(parts, inside):
+        pos = 0
+        for n in sorted(parts, key=_first_key):        # stable
+            size = len(leaves(n))
+            if not inside(n, seq[pos:pos + size]):
+                return False
+            pos += size
+        return pos == len(seq)
+    if chunks_ok(top_elems(node, True), inner_ok):
+        return True
+    return node["k"] == "fixture" and chunks_ok(
+        node["c"], lambda n, part: inner_ok(n, part) if n["k"] in HOOKED else part == leaves(n))
+
+
 def run_case(spec):
     from testtools.testsuite import iterate_tests, filter_by_ids, sorted_tests
     vs = []
@@ -278,6 +320,10 @@ def run_case(spec):
     # "test_ids: something that supports the __contains__ protocol"
     container = {"set": keep, "frozenset": frozenset(keep), "list": sorted(keep), "dict": dict.fromkeys(keep),
                  "contains-only": type("OnlyContains", (), {"__contains__": lambda self, x: x in keep})()}[spec.get("ids_as", "set")]
+    # custom suites WITHOUT a filter_by_ids hook, decided on the live objects before the call (not by kind name: a
+    # suite class of the library may grow the non-mutating hook its docstring recommends)
+    hookless = {id(o) for o in _ALIVE if id(o) in reg and isinstance(o, unittest.TestSuite)
+                and type(o) is not unittest.TestSuite and not hasattr(o, "filter_by_ids")}
     res = filter_by_ids(live, container)
     got = [x.id() for x in iterate_tests(res)]
     want = [i for i in want_leaves if i in keep]
@@ -301,20 +347,21 @@ def run_case(spec):
             return acc
         present = walk(res, set())
         for oid, node in reg.items():
-            if node["k"] in ("sub", "sorting", "fixture") and any(i in keep for i in leaves(node)) and oid not in present:
+            if oid in hookless and any(i in keep for i in leaves(node)) and oid not in present:
                 vs.append(V("filter", "custom-suite-replaced", "a %s suite holding kept tests %r is no longer in the filtered tree (replaced by another object)" % (
                     node["k"], [i for i in leaves(node) if i in keep])))
                 break
-    if t["k"] in ("sub", "sorting", "fixture") and res is not live:
-        vs.append(V("filter", "not-in-place", "filter_by_ids of a %s suite returned another object (%r)" % (t["k"], type(res).__name__)))
-    elif t["k"] == "plain" and got == want:
-        # "leaves exactly the tests ...": a suite without a hook is filtered in place - the object handed in holds the kept tests
-        left = [x.id() for x in iterate_tests(live)]
-        if left != want:
-            vs.append(V("filter", "input-not-filtered", "after filter_by_ids(%r) the plain suite handed in holds %r, expected %r" % (
-                sorted(keep), left, want)))
+    if id(live) in hookless and res is not live:
+        vs.append(V("filter", "not-in-place", "filter_by_ids of a %s suite without a filter_by_ids hook returned another object (%r)" % (
+            t["k"], type(res).__name__)))
+    # (what the object handed in holds afterwards is not looked at when it is an exact unittest.TestSuite: the property is
+    # observed on the returned suite, and a plain suite can be rebuilt as well as mutated)
     # the utilities composed on one tree, as testtools.run composes them (discover sorts, --load-list filters)
     dup = [i for i, n in collections.Counter(want_leaves).items() if n > 1]
+    # duplicate ids carried by at least two distinct test objects (one "shared" object met at several places of the tree may be
+    # counted as one test or as one per place: ValueError and no ValueError are both accepted for it)
+    dup_distinct = [i for i in dup if sum(n.get("lk") != "shared" for n in leaf_nodes(t) if n["id"] == i)
+                    + any(n.get("lk") == "shared" for n in leaf_nodes(t) if n["id"] == i) > 1]
     if not dup:
         reg = {}
         live = build(t, cls, reg)
@@ -352,9 +399,9 @@ def run_case(spec):
         err = e
         vs.append(V("sorted", "raises-%s" % type(e).__name__, "sorted_tests raised %r on %r" % (e, t)))
     if err is None:
-        if dup:
-            vs.append(V("sorted", "duplicates-accepted", "duplicate ids %r and no ValueError" % dup))
-        else:
+        if dup_distinct:
+            vs.append(V("sorted", "duplicates-accepted", "duplicate ids %r and no ValueError" % dup_distinct))
+        elif not dup:
             # expected top-level elements
             want_top = top_elems(t, unpack)
             if not isinstance(res, unittest.TestSuite):
@@ -386,7 +433,7 @@ def run_case(spec):
                         if n["k"] == "leaf" or undecided(n):
                             continue
                         inside = [x.id() for x in iterate_tests(e)]
-                        if inside != inner_ids(n):
+                        if not inner_ok(n, inside):
                             if n["k"] in HOOKED:
                                 vs.append(V("sorted", "inner-order", "a %s suite (it has a sort_tests hook) holds %r after sorted_tests, expected %r" % (
                                     n["k"], inside, inner_ids(n))))
@@ -493,7 +540,7 @@ def run_cli(spec):
         if ran != want:
             vs.append(V("cli", "load-list-run", "--load-list %r ran %r, expected %r" % (keep, ran, want)))
         # a run in which nothing was selected may also end the way unittest.main does since 3.12 ("no tests ran": 5)
-        if code not in ((0, False) if want else (0, False, 5)):
+        if code not in ((None, 0, False) if want else (None, 0, False, 5)):
             vs.append(V("cli", "exit-status", "all-passing run exited with %r" % (code,)))
         out, code, ran = call(["--list", "--load-list", listfile])
         if code not in (None, 0, False):
